@@ -205,6 +205,76 @@ let cmd_padlen (arg : string) : string =
   | Result.Error (_, e) -> "ERR " ^ render_err e
   | Result.Ok m -> Printf.sprintf "OK %d" (int_of_nat (calculate_padding_length m))
 
+(* ---------- Merkle ---------- *)
+let version_of (s : string) : version =
+  match s with
+  | "Google" | "0" -> Google
+  | "RfcDraft13" | "13" -> RfcDraft13
+  | _ -> failwith "bad version"
+
+let render_mres (f : 'a -> string) (o : (unit, 'a) outcome) : string =
+  match o with Ok a -> f a | Err () -> "ERR" | Panic _ -> "PANIC"
+
+let parse_batches (s : string) : bytes list list =
+  List.map (fun b -> List.map bytes_of_hex (split_on ',' b)) (String.split_on_char '|' s)
+
+let cmd_merkle (arg : string) : string =
+  let arg = String.trim arg in
+  let i = String.index arg ' ' in
+  let ver = version_of (String.sub arg 0 i) in
+  let batches = parse_batches (String.sub arg (i + 1) (String.length arg - i - 1)) in
+  render_mres (fun outs ->
+      String.concat " | " (List.map (fun (root, ps) ->
+          Printf.sprintf "R=%s P=%s" (hex_of_bytes root)
+            (String.concat "," (List.map render_hash ps))) outs))
+    (Model.batches sha512 (tree_new ver) batches)
+
+(* spec side: functional tree; also checks recomputation of every position *)
+(* memoised digest for the spec side: the functional definitions recompute the whole tree for
+   every path, which is fine mathematically and quadratic operationally *)
+let sha_memo : (string, bytes) Hashtbl.t = Hashtbl.create 4096
+let sha512_memo (x : bytes) : bytes =
+  let k = string_of_bytes x in
+  match Hashtbl.find_opt sha_memo k with
+  | Some r -> r
+  | None ->
+    if Hashtbl.length sha_memo > 200000 then Hashtbl.reset sha_memo;
+    let r = sha512 x in Hashtbl.add sha_memo k r; r
+
+let cmd_merkle_spec (arg : string) : string =
+  let arg = String.trim arg in
+  let i = String.index arg ' ' in
+  let ver = version_of (String.sub arg 0 i) in
+  let w = node_len ver in
+  let h x = firstn w (sha512_memo x) in
+  let batches = parse_batches (String.sub arg (i + 1) (String.length arg - i - 1)) in
+  String.concat " | " (List.map (fun leaves ->
+      let root = s_root h w leaves in
+      let n = List.length leaves in
+      let ok = ref true in
+      let ps = List.mapi (fun i d ->
+          let p = s_path h w leaves (nat_of_int i) in
+          if s_recompute h d (nat_of_int i) p <> root then ok := false;
+          render_hash (List.concat p)) leaves in
+      ignore n;
+      Printf.sprintf "R=%s P=%s C=%d" (hex_of_bytes root) (String.concat "," ps) (if !ok then 1 else 0))
+      batches)
+
+let cmd_mroot ~(spec : bool) (arg : string) : string =
+  match String.split_on_char ' ' (String.trim arg) with
+  | [v; idx; leaf; path] ->
+    let ver = version_of v in
+    let leaf = bytes_of_hex leaf and path = bytes_of_hex path in
+    if spec then begin
+      let w = node_len ver in
+      let h x = firstn w (sha512_memo x) in
+      if List.length path mod (int_of_nat w) <> 0 then "REJECT"
+      else "OK " ^ hex_of_bytes (s_recompute h leaf (nat_of_int (int_of_string idx)) (chunks w path))
+    end else
+      render_mres (fun r -> "OK " ^ hex_of_bytes r)
+        (root_from_paths sha512 ver (n_of_string idx) leaf path)
+  | _ -> failwith "mroot args"
+
 let dispatch (line : string) : string =
   let cmd, rest =
     match String.index_opt line ' ' with
@@ -217,6 +287,10 @@ let dispatch (line : string) : string =
   | "build" -> cmd_build rest
   | "buildspec" -> cmd_build_spec rest
   | "padlen" -> cmd_padlen rest
+  | "merkle" -> cmd_merkle rest
+  | "merklespec" -> cmd_merkle_spec rest
+  | "mroot" -> cmd_mroot ~spec:false rest
+  | "mrootspec" -> cmd_mroot ~spec:true rest
   | _ -> "UNKNOWN-CMD " ^ cmd
 
 (* ---------- self test: extraction glue vs extracted definitions ---------- *)
